@@ -302,7 +302,9 @@ def run_case_json(ctx: Ctx, case: dict, rng: random.Random, scripts: list, outs:
                 x["capacity"] = rat(Fraction(x["capacity"]) * k)
         o1, o2 = g.run_c18_impl(g.static_script(snap)), g.run_c18_impl(g.static_script(snap2))
         w = total_x100(qual)
-        if soc_of(o1) != soc_of(o2):
+        if isinstance(o1["out"][-1]["soc"], str) or isinstance(o2["out"][-1]["soc"], str):
+            ctx.violation("calculator-raised", {"snapshot": snap, "factor": rat(k)}, {"out": [o1, o2]})
+        elif soc_of(o1) != soc_of(o2):
             crossing = (abs(w) <= TOL) != (abs(k * w) <= TOL)
             ctx.violation("scale", {"snapshot": snap, "factor": rat(k)},
                           {"soc": rat(soc_of(o1)), "soc_scaled": rat(soc_of(o2)), "total_x100": rat(w), "scaled_total_x100": rat(k * w)},
@@ -324,6 +326,29 @@ def run(ctx: Ctx) -> None:
             check_script(ctx, g.gen_c18_script(rng), scripts, outs)
         else:
             check_snapshot(ctx, g.gen_c18_static(rng, in_domain=r < 0.92), rng, scripts, outs)
+    if ctx.tier == "thorough":
+        # bounded-exhaustive small scope: two batteries, every combination of capacity / limits / SoC position /
+        # presence from a small lattice (both working), with the metamorphic re-runs of every snapshot
+        caps = ["0", "1/1099511627776", "1", "1000"]
+        lims = [("0", "100"), ("20", "20"), ("10", "90")]
+        k = 0
+
+        def variants():
+            for cap in caps:
+                for lo, hi in lims:
+                    l, h = Fraction(lo), Fraction(hi)
+                    for soc in (l - 5, l, (l + h) / 2, h, h + 5):
+                        yield {"capacity": cap, "lo": lo, "hi": hi, "soc": rat(soc), "has": True}
+            yield {"capacity": "1000", "lo": "10", "hi": "90", "soc": None, "has": True}
+            yield {"capacity": "1000", "lo": "10", "hi": "90", "soc": "50", "has": False}
+
+        vs = list(variants())
+        for a in vs:
+            for b in vs:
+                snap = {"bats": [{"id": 11, "ts": 1, **a}, {"id": 12, "ts": 2, **b}], "working": [11, 12]}
+                check_snapshot(ctx, snap, ctx.subrng("exh", k), scripts, outs)
+                k += 1
+        ctx.extra["bounded_exhaustive_cases"] = k
     ctx.compare("PoolSoc", scripts, outs, what="pool SoC / capacity samples")
 
 
